@@ -1545,7 +1545,59 @@ func checkRemoveAfterPasses(c *Ctx, rule string) {
 				// cut the success edge of this pass: Remove must become unreachable from entry
 				r := reach(exec, nil, errorEdgeCut(exec, passCall, false), nil)
 				bad := false
-				if len(errResults(passCall)) == 0 || len(nilTestsOf(exec, errResults(passCall)[0])) == 0 {
+				if h := passCall.Parent(); h != exec && h.Parent() == nil && gNewFuncs[h] && len(sitesOf(h)) == 1 {
+					// the passes run in a phase helper the reference tree does not have: the helper must not
+					// signal "completed" (a true result, or a nil error) when this pass failed, and map A is
+					// removed only behind that signal
+					site, isCall := sitesOf(h)[0].(*ssa.Call)
+					if !isCall || site.Parent() != exec || len(errResults(passCall)) == 0 {
+						c.Bad(rule, key, c.Pos(passCall.Pos()), "the pass's error is not tested before map A is removed")
+						continue
+					}
+					nres := h.Signature.Results().Len()
+					bidx := -1
+					for i := 0; i < nres; i++ {
+						if b, isB := h.Signature.Results().At(i).Type().Underlying().(*types.Basic); isB && b.Kind() == types.Bool {
+							bidx = i
+						}
+					}
+					rh := reach(h, nil, errorEdgeCut(h, passCall, false), nil)
+					for _, ret := range returnsOf(h) {
+						if !rh(ret) {
+							continue
+						}
+						if bidx >= 0 {
+							// (named results are spilled to cells when the helper defers: judge what reaches the return)
+							valueOrigins(h, ret.Results[bidx], func(rv ssa.Value) {
+								if k, isK := rv.(*ssa.Const); !isK || k.Value == nil || k.Value.String() != "false" {
+									bad = true
+								}
+							})
+						} else if isNilErrorReturn(ret) {
+							bad = true
+						}
+					}
+					if bad {
+						c.Bad(rule, key, c.Pos(passCall.Pos()), "the phase helper can report the plot complete although this pass did not return nil")
+						continue
+					}
+					var cut func(from, to *ssa.BasicBlock) bool
+					if bidx >= 0 {
+						var okv ssa.Value = site
+						if nres > 1 {
+							okv = resultOf(site, bidx)
+						}
+						ot := boolTestsOf(exec, okv)
+						if okv == nil || len(ot) == 0 {
+							c.Bad(rule, key, c.Pos(site.Pos()), "the phase helper's completion result is not tested before map A is removed")
+							continue
+						}
+						cut = boolEdgeCut(ot, true)
+					} else {
+						cut = errorEdgeCut(exec, site, false)
+					}
+					r = reach(exec, nil, cut, nil)
+				} else if len(errResults(passCall)) == 0 || len(nilTestsOf(exec, errResults(passCall)[0])) == 0 {
 					bad = true
 					c.Bad(rule, key, c.Pos(passCall.Pos()), "the pass's error is not tested before map A is removed")
 				}
